@@ -479,6 +479,15 @@ def h_m_call(w, st, rec):
                 if pre2 != [digest(x) for x in args2]:
                     w.violate("argument_modified", site, {"after": "injected %s failure #%d" % (seam, k)})
                 check_models(w, st, site, failed=(out2[0] == "exc"))
+        if seam_calls and comparable(rec):
+            # ... and the call once more, undisturbed: it answers as it did before the failures
+            fn3, _ = call_method(w, st, obj, mtype, method, a, G.seed_object(w, rec.get("seed")))
+            out3 = w.call(fn3)
+            w.probes["sweep.call_repeated_after_the_failures"] += 1
+            if outcome_digest(*out3) != outcome_digest(*out) and not equalish(plain(out[1]), plain(out3[1])):
+                w.violate("result_depends_on_history", site,
+                          {"how": "the same call after a sweep of injected failures", "before": outcome_digest(*out),
+                           "after": outcome_digest(*out3)})
     return outcome_digest(*out), out
 
 
@@ -630,6 +639,21 @@ def h_u_call(w, st, rec):
                 if pre2 != [digest(x) for x in args2]:
                     w.violate("argument_modified", site, {"after": "injected %s failure #%d" % (seam, k)})
                 check_models(w, st, site, failed=(out2[0] == "exc"))
+        if seam_calls and not unseeded and not hasattr(out[1], "__next__") and not (
+                name.startswith("gen.") and "random_state" not in rec.get("kw", {})):
+            # ... and the call once more, undisturbed: it answers as it did before the failures
+            args3 = [build_arg(w, st, a) for a in rec["args"]]
+            kw3 = {kk: build_arg(w, st, v) for kk, v in rec.get("kw", {}).items()}
+            if "dtype" in kw3 and isinstance(kw3["dtype"], str):
+                kw3["dtype"] = np.dtype(kw3["dtype"])
+            if rec.get("same_object"):
+                args3[rec["same_object"][1]] = args3[rec["same_object"][0]]
+            out3 = w.call(f, *args3, **kw3)
+            w.probes["sweep.call_repeated_after_the_failures"] += 1
+            if outcome_digest(*out3) != outcome_digest(*out) and not equalish(plain(out[1]), plain(out3[1])):
+                w.violate("result_depends_on_history", site,
+                          {"how": "the same call after a sweep of injected failures", "before": outcome_digest(*out),
+                           "after": outcome_digest(*out3)})
     return outcome_digest(*out), out
 
 
@@ -1811,7 +1835,7 @@ REQUIRED_PROBES = ["iv.do.non_source", "iv.shift.non_source", "iv.noise.non_sour
                    "utils.unseeded_call",
                    "nd.check_valid"]
 
-REQUIRED_PROBES = REQUIRED_PROBES + ["call.after_its_hash_twin(-1 / -2)", "thread.calls_outside_main_thread", "fault.died_in_a_numpy_call(np.*)", "sweep.np_star", "sample.giant(>=2**20 values)"]
+REQUIRED_PROBES = REQUIRED_PROBES + ["sweep.call_repeated_after_the_failures", "call.after_its_hash_twin(-1 / -2)", "thread.calls_outside_main_thread", "fault.died_in_a_numpy_call(np.*)", "sweep.np_star", "sample.giant(>=2**20 values)"]
 
 
 def simplify(op):
